@@ -478,11 +478,35 @@ def ranges(ctx, cr):
            sample={"ok_paths": n_ok})
 
 
+def map_equality(ctx, cr):
+    """maps compare by key set and values irrespective of key order: MapValue's PartialEq (the route of query-vs-query ==, `in [..]` and the
+    != reverse diff) must compare through IndexMap's order-insensitive equality only; a positional comparison (Vec / slice ==) of the
+    key list makes equality depend on the order in which the document listed the keys"""
+    rule = "R-C13-eq-routes"
+    k = next((x for x in cr.fns if x.startswith("<rules::path_value::MapValue as std::cmp::PartialEq")), None)
+    if not k:
+        ctx.lost(rule, rule + ":map-eq", "impl PartialEq for MapValue")
+        return
+    f = cr.fns[k]
+    kinds = []
+    for bi, t in M.iter_calls(f):
+        if M.norm_path(t["fn"].get("decl", "")) not in ("std::cmp::PartialEq::eq", "std::cmp::PartialEq::ne"):
+            continue
+        ga = t["fn"].get("ga", [])
+        ty = M.Ty(cr, ga[0]).strip_refs() if ga else None
+        kinds.append((ty.adt_path() if ty is not None and ty.adt_path() else (ty.kind if ty is not None else "?"), t.get("ln")))
+    positional = [(a, l) for a, l in kinds if not str(a).endswith("IndexMap")]
+    ok = not positional and any(str(a).endswith("IndexMap") for a, l in kinds)
+    ctx.ob(rule, rule + ":map-eq-order-insensitive", ok, ("MapValue::eq also compares %s: map equality becomes sensitive to key order" % positional) if positional else "MapValue::eq compares the IndexMap of values only (order-insensitive)", fn=f,
+           sample={"compares": [str(a) for a, l in kinds]})
+
+
 def run(ctx):
     cr = ctx.lib
     order_tables(ctx, cr)
     kernel(ctx, cr)
     eq_routes(ctx, cr)
+    map_equality(ctx, cr)
     ranges(ctx, cr)
     ctx.assumptions += [
         "the numeric / lexicographic meaning of i64::cmp, f64::partial_cmp, str::cmp, char::cmp is std's (not analysed)",
